@@ -4,6 +4,27 @@ ALL = ["C%02d" % i for i in range(1, 21)]
 HOOK_COMMITS = ["55abd2b"]
 
 CHECKS = {
+    "C06": {
+        "text": "Machine-checked proof (Coq 8.16) that for every stream of well-formed SET/GET/DEL requests and EVERY way of cutting "
+                "it into socket reads (and any pipelining depth) the handler model writes exactly the concatenation of the map's "
+                "replies, one per request in order, ends with the map's store and closes cleanly; built on the stream theorem of C08. "
+                "Tied to /repo by driving the real server over TCP with generated request sequences under several segmentations and "
+                "pipelining modes, comparing reply bytes and final store with the model and with an independent map oracle.",
+        "design_ref": "DESIGN.md section 8, C06",
+        "note": "The handler model runs over a map; C01 links the real engine to it. Segment boundaries over loopback are encouraged, "
+                "not guaranteed; the deterministic segmentation tie is C08's scripted stream. tokio/TCP are modelled, not verified.",
+        "technique": "Coq proof (handler over stream theorem) + differential correspondence over TCP",
+    },
+    "C10": {
+        "text": "Machine-checked proof over the handler model: on arbitrary bytes in arbitrary pieces the connection layer yields only "
+                "frames followed by one clean end/reset/error (no panic, abort or exhausted fuel), the handler never panics, and the "
+                "store changes exactly by the commands the command parser accepted before the first rejected frame; partial: that a "
+                "failing tokio task leaves the process and other tasks intact is observed, not proved. The check sends 26 families of "
+                "hostile streams to the real server while two other connections verify their own answers and the process stays up.",
+        "design_ref": "DESIGN.md section 8, C10",
+        "note": "Process-level isolation (tokio tasks) is runtime behaviour outside the model; observed by the harness.",
+        "technique": "Coq proof (totality, store effect) + hostile-stream differential runs against the live server",
+    },
     "C07": {
         "text": "Machine-checked proof (Coq 8.16) over a hand-written executable model of Frame::check / Frame::parse / "
                 "get_integer / get_line: totality (no panic, no out-of-fuel, nesting bounded by 33 calls), exactness of "
